@@ -137,3 +137,116 @@ Proof.
   - rewrite load_runtime_nomerge by exact H. left; reflexivity.
   - finish_remerge c.
 Qed.
+
+(** * No I/O failure along a fold *)
+Fixpoint no_bad (fs : fsys) (c : cfg) (ops : list op) : bool :=
+  match ops with
+  | [] => true
+  | o :: r => negb (io_bad fs c o) && no_bad fs (pure_step fs c o) r
+  end.
+
+Lemma no_bad_app fs : forall a c b,
+  no_bad fs c (a ++ b) = no_bad fs c a && no_bad fs (apply_script fs c a) b.
+Proof.
+  induction a as [|o a IH]; intros c b; [reflexivity|].
+  simpl. rewrite IH, andb_assoc. reflexivity.
+Qed.
+
+Lemma after_last_snoc f ops o :
+  after_last f (ops ++ [o]) = if f o then [] else after_last f ops ++ [o].
+Proof.
+  induction ops as [|x ops IH]; simpl.
+  - destruct (f o); reflexivity.
+  - rewrite existsb_app. simpl. rewrite orb_false_r. rewrite IH.
+    destruct (existsb f ops) eqn:E1; simpl.
+    + destruct (f o); reflexivity.
+    + destruct (f o) eqn:E2; simpl; [reflexivity|].
+      destruct (f x); reflexivity.
+Qed.
+
+Lemma not_LFail_next fs t l :
+  fst (fst t) = FNone -> try_suffixes fs l file_suffixes <> LFail ->
+  fst (fst (located_next fs t (Some l))) <> FNone.
+Proof.
+  destruct t as [[f d] s]. simpl. intros -> H. unfold located_next, located_upd.
+  destruct (try_suffixes fs l file_suffixes); simpl; congruence.
+Qed.
+
+(** system / user: once a load call for the level is in the script, its first
+    existing candidate was readable *)
+Lemma located_loaded_ok fs (is_it : op -> bool) (get3 : cfg -> triple) (getloc : cfg -> option string)
+      (l : string) :
+  (forall c o, script_op o = true -> getloc (pure_step fs c o) = getloc c) ->
+  (forall c o, script_op o = true ->
+     get3 (pure_step fs c o) = if is_it (undefer o) then located_next fs (get3 c) (getloc c) else get3 c) ->
+  (forall c o, is_it (undefer o) = true -> io_bad fs c o = located_bad fs (fst (fst (get3 c))) (getloc c)) ->
+  forall ops c, forallb script_op ops = true -> no_bad fs c ops = true -> getloc c = Some l ->
+    (fst (fst (get3 c)) = FNone \/ try_suffixes fs l file_suffixes <> LFail) ->
+    existsb is_it (map undefer ops) = true -> try_suffixes fs l file_suffixes <> LFail.
+Proof.
+  intros Hloc Hstep Hbad. induction ops as [|o rest IH]; intros c HF Hnb Hl Hinv Hex; [discriminate|].
+  simpl in HF, Hnb, Hex. apply andb_true_iff in HF as [Ho HF']. apply andb_true_iff in Hnb as [Hb Hnb'].
+  apply negb_true_iff in Hb.
+  destruct (is_it (undefer o)) eqn:Ei.
+  - destruct Hinv as [Hf|Hok]; [|exact Hok].
+    rewrite (Hbad c o Ei), Hl, Hf in Hb. unfold located_bad in Hb.
+    destruct (try_suffixes fs l file_suffixes); try discriminate; congruence.
+  - simpl in Hex. apply (IH (pure_step fs c o) HF' Hnb').
+    + rewrite Hloc by exact Ho. exact Hl.
+    + rewrite Hstep by exact Ho. rewrite Ei. exact Hinv.
+    + exact Hex.
+Qed.
+
+Lemma forallb_snoc {A} (f : A -> bool) l x : forallb f (l ++ [x]) = forallb f l && f x.
+Proof. rewrite forallb_app. simpl. rewrite andb_true_r. reflexivity. Qed.
+
+(** project: a load call after the last re-pointing found a readable candidate *)
+Lemma prj_inv fs c0 : forall all,
+  forallb script_op all = true -> no_bad fs c0 all = true -> c_proj_found c0 = FNone ->
+  let c := apply_script fs c0 all in
+  (forall l, c_proj_loc c = Some l -> c_proj_found c <> FNone -> try_suffixes fs l file_suffixes <> LFail) /\
+  (existsb isPrj (after_last isSetP (map undefer all)) = true ->
+   forall l, c_proj_loc c = Some l -> c_proj_found c <> FNone).
+Proof.
+  induction all as [|o a IH] using rev_ind; intros HF Hnb H0; cbv zeta.
+  - simpl. split; [intros l _ Hf; congruence | discriminate].
+  - rewrite forallb_snoc in HF. apply andb_true_iff in HF as [HFa Ho].
+    rewrite no_bad_app in Hnb. apply andb_true_iff in Hnb as [Hnba Hb].
+    simpl in Hb. rewrite andb_true_r in Hb. apply negb_true_iff in Hb.
+    destruct (IH HFa Hnba H0) as [I2 I1]. clear IH.
+    rewrite apply_script_app. set (c := apply_script fs c0 a) in *.
+    change (apply_script fs c [o]) with (pure_step fs c o).
+    fields fs c o Ho.
+    rewrite map_app. cbn [map]. rewrite after_last_snoc.
+    assert (Hfound : c_proj_found (pure_step fs c o) = fst (fst (prj3 (pure_step fs c o)))) by reflexivity.
+    rewrite Hfound, Hp3, Hpl. clear Hfound Hp3 Hpl Hd Ho0 Hc He Hm Hdl Hsl Hul Hpf Hrp Hs3 Hu3 Hr2.
+    unfold io_bad in Hb.
+    destruct o; try discriminate; cbn [undefer isSetP isPrj fst prj3 blank3] in *;
+      try (rewrite existsb_app; cbn [existsb isPrj orb]; rewrite orb_false_r; split; [exact I2 | exact I1]).
+    + (* LoadProject *)
+      split.
+      * intros l Hl Hf. destruct (c_proj_found c) eqn:Ef.
+        -- unfold located_bad in Hb. rewrite Hl in Hb.
+           destruct (try_suffixes fs l file_suffixes); try discriminate; congruence.
+        -- apply (I2 l Hl). congruence.
+        -- apply (I2 l Hl). congruence.
+      * intros _ l Hl. destruct (c_proj_found c) eqn:Ef.
+        -- unfold located_bad in Hb. rewrite Hl in Hb. unfold located_next, located_upd, prj3. rewrite Hl, Ef.
+           destruct (try_suffixes fs l file_suffixes); try discriminate; simpl; congruence.
+        -- unfold located_next, located_upd, prj3. rewrite Ef. simpl. congruence.
+        -- unfold located_next, located_upd, prj3. rewrite Ef. simpl. congruence.
+    + (* SetProjectLocation *)
+      split; [|discriminate]. intros l0 _ Hf. exfalso. apply Hf. reflexivity.
+    + (* LoadProjectD *)
+      split.
+      * intros l Hl Hf. destruct (c_proj_found c) eqn:Ef.
+        -- unfold located_bad in Hb. rewrite Hl in Hb.
+           destruct (try_suffixes fs l file_suffixes); try discriminate; congruence.
+        -- apply (I2 l Hl). congruence.
+        -- apply (I2 l Hl). congruence.
+      * intros _ l Hl. destruct (c_proj_found c) eqn:Ef.
+        -- unfold located_bad in Hb. rewrite Hl in Hb. unfold located_next, located_upd, prj3. rewrite Hl, Ef.
+           destruct (try_suffixes fs l file_suffixes); try discriminate; simpl; congruence.
+        -- unfold located_next, located_upd, prj3. rewrite Ef. simpl. congruence.
+        -- unfold located_next, located_upd, prj3. rewrite Ef. simpl. congruence.
+Qed.
